@@ -91,7 +91,7 @@ func vBuildGadget(name string, w expr.Width, a, b, t, f expr.Expr, va, vb, vt, v
 		q := vAbsBV(A).UDiv(vAbsBV(B))
 		neg := A.Slt(zero) != B.Slt(zero)
 		refM := sym.BVIte(B.Eq(zero), zero.Not(), sym.BVIte(neg, q.Neg(), q))
-		if W <= 16 {
+		if W <= 8 {
 			sym.Assert(refS.Eq(refM), "reference self-check: bvsdiv form equals magnitude form")
 			return vGadgetCase{e: exprtools.SignedDiv(a, b, w), ref: refS}
 		}
